@@ -26,40 +26,49 @@ def _stages(tier):
 
 
 def _minima(tier):
-    f = 4 if tier == 'thorough' else 1
-    return {
-        'cases': 100 * f,
-        'distinct:interleaving': 300 * f,
-        'runs.concurrent': 500 * f,
-        'digest.compared': 5000 * f,
-        'build.tsan': 1,
-        # observed concurrency (calls of different threads that overlapped in time, per pair of entry-point kinds)
-        'overlap.readFile||readFile': 200 * f,
-        'overlap.readLP||readLP': 100 * f,
-        'overlap.readMPS||readMPS': 50 * f,
-        'overlap.optimize||optimize': 1000 * f,
-        'overlap.exact||exact': 100 * f,
-        'overlap.exact||exactb': 100 * f,
-        'overlap.exactb||exactb': 100 * f,
-        'overlap.ctor||ctor': 500 * f,
-        'overlap.ctor||dtor': 200 * f,
-        'overlap.dtor||dtor': 100 * f,
-        'overlap.copy||copy': 30 * f,
-        'overlap.load||load': 50 * f,
-        'overlap.modify||modify': 50 * f,
-        'overlap.setParam||setParam': 100 * f,
-        'overlap.writeFile||writeFile': 100 * f,
-        'overlap.query||query': 1000 * f,
-        'overlap.queryRat||queryRat': 100 * f,
-        # script step kinds executed concurrently
-        'step.ctor': 1000 * f, 'step.setParam': 1000 * f, 'step.load.real': 1000 * f, 'step.load.rational': 500 * f,
-        'step.readFile.lp': 1000 * f, 'step.readFile.mps': 500 * f, 'step.modify.real': 1000 * f, 'step.modify.rational': 1000 * f,
-        'step.optimize.real': 3000 * f, 'step.optimize.exact': 1000 * f, 'step.optimize.exact.boosted': 1000 * f,
-        'step.writeFile.lp': 1000 * f, 'step.writeFile.mps': 500 * f, 'step.copy': 500 * f, 'step.assign': 500 * f,
-        'step.settingsio': 500 * f, 'step.readBasisFile': 200 * f,
-        'exact.solves_with_precision_boost': 20 * f,
-        'threads.T2': 5, 'threads.T4': 5, 'threads.T8': 5, 'threads.T16': 5, 'threads.T32': 5,
+    # about one fifth of what a quick run observes on this machine (thorough: x8); a run that interleaved less is inconclusive
+    f = 8 if tier == 'thorough' else 1
+    m = {
+        'cases': 170,
+        'distinct:interleaving': 600,
+        'runs.concurrent': 800,
+        'digest.compared': 8000,
+        'digest.steps_compared': 200000,
+        # observed concurrency: calls of different threads that overlapped in time, per pair of entry-point kinds
+        'overlap.readFile||readFile': 20000,
+        'overlap.readLP||readLP': 4000,
+        'overlap.readMPS||readMPS': 20000,
+        'overlap.optimize||optimize': 3000,
+        'overlap.exact||exact': 400,
+        'overlap.exact||exactb': 1000,
+        'overlap.exactb||exactb': 500,
+        'overlap.ctor||ctor': 6000,
+        'overlap.ctor||dtor': 8000,
+        'overlap.dtor||dtor': 5000,
+        'overlap.ctor||exactb': 4000,
+        'overlap.dtor||exactb': 4000,
+        'overlap.ctor||readLP': 10000,
+        'overlap.copy||copy': 150,
+        'overlap.copy||optimize': 1500,
+        'overlap.load||load': 150,
+        'overlap.modify||modify': 80,
+        'overlap.setParam||setParam': 4000,
+        'overlap.writeFile||writeFile': 4000,
+        'overlap.query||query': 1500,
+        'overlap.queryRat||queryRat': 500,
+        'overlap.settingsio||settingsio': 1000,
+        'overlap.basisio||basisio': 600,
+        # script step kinds executed (and compared) in concurrent runs
+        'step.ctor': 2000, 'step.setParam': 6000, 'step.load.real': 2000, 'step.load.rational': 2500,
+        'step.readFile.lp': 6000, 'step.readFile.mps': 4000, 'step.readBasisFile': 2000, 'step.modify.real': 4000,
+        'step.modify.rational': 4000, 'step.optimize.real': 10000, 'step.optimize.exact': 2000, 'step.optimize.exact.boosted': 2000,
+        'step.query.real': 2000, 'step.writeFile.lp': 8000, 'step.writeFile.mps': 2000, 'step.writeBasisFile': 4000, 'step.copy': 4000,
+        'step.assign': 2000, 'step.settingsio': 2000,
+        'exact.solves_with_precision_boost': 300,
     }
+    m = {k: v * f for k, v in m.items()}
+    m.update({'build.tsan': 1, 'build.plain': 1, 'threads.T2': 10, 'threads.T4': 10, 'threads.T8': 10, 'threads.T16': 10, 'threads.T32': 10})
+    return m
 
 
 PROPS = {
